@@ -485,3 +485,26 @@ fn test_ll_default() {
     assert!(table.decode[59].num_bits == 5);
     assert!(table.decode[59].base_line == 32);
 }
+
+/// Pass-through wrappers for the verification harness (no logic).
+#[cfg(feature = "verif_hooks")]
+pub mod verif {
+    pub fn lookup_ll_code(code: u8) -> (u32, u8) {
+        super::lookup_ll_code(code)
+    }
+    pub fn lookup_ml_code(code: u8) -> (u32, u8) {
+        super::lookup_ml_code(code)
+    }
+    /// (LL dist, LL log, ML dist, ML log, OF dist, OF log)
+    #[allow(clippy::type_complexity)]
+    pub fn default_distributions() -> (&'static [i32], u8, &'static [i32], u8, &'static [i32], u8) {
+        (
+            &super::LITERALS_LENGTH_DEFAULT_DISTRIBUTION,
+            super::LL_DEFAULT_ACC_LOG,
+            &super::MATCH_LENGTH_DEFAULT_DISTRIBUTION,
+            super::ML_DEFAULT_ACC_LOG,
+            &super::OFFSET_DEFAULT_DISTRIBUTION,
+            super::OF_DEFAULT_ACC_LOG,
+        )
+    }
+}
